@@ -361,6 +361,10 @@ func findReference(msaIn io.Reader, referenceID string) (fastaio.EncodedFastaRec
 func RegionsFromGFF(anno gff.GFF, refSeqDegapped string) ([]Region, []int, error) {
 
 	IDed := make(map[string][]gff.Feature)
+	// the IDs in order of first appearance in the file: the regions are built in this
+	// order (not in the map's random order) so that features that start at the same
+	// position always come out in the same order
+	idOrder := make([]string, 0)
 	other := make([]gff.Feature, 0)
 	for _, f := range anno.Features {
 		if !(f.Type == "CDS" || f.Type == "mature_protein_region_of_CDS") {
@@ -369,6 +373,9 @@ func RegionsFromGFF(anno gff.GFF, refSeqDegapped string) ([]Region, []int, error
 		if f.HasAttribute("ID") {
 			id, ok := f.Attributes["ID"]
 			if ok {
+				if _, seen := IDed[id[0]]; !seen {
+					idOrder = append(idOrder, id[0])
+				}
 				IDed[id[0]] = append(IDed[id[0]], f)
 			} else {
 				IDed[id[0]] = []gff.Feature{f}
@@ -379,7 +386,8 @@ func RegionsFromGFF(anno gff.GFF, refSeqDegapped string) ([]Region, []int, error
 	}
 
 	tempcds := make([]Region, 0)
-	for _, f := range IDed {
+	for _, id := range idOrder {
+		f := IDed[id]
 		verifhook.Note("variants.RegionsFromGFF", f[0].Attributes["ID"][0])
 		r, err := CDSRegion2fromGFF(f, refSeqDegapped)
 		if err != nil {
